@@ -140,9 +140,10 @@ def run_probe(ctx, binary, tsan, compiler, variant, args, expect_known=None):
         ctx.violation("probe did not terminate within the deadline (destructor or handler hand-off hangs)", replay)
         return
     if rc != 0:
-        replay["finding_key"] = "c15:crash"
+        lifetime = variant == "noshutdown" and "pure virtual method called" in se
+        replay["finding_key"] = "c15:vptr_race_on_destruction" if lifetime else "c15:crash"
         replay["stderr"] = se[-1500:]
-        ctx.violation("probe crashed (exit %s)" % rc, replay)
+        ctx.violation("probe crashed (exit %s)%s" % (rc, ": pure virtual method called" if lifetime else ""), replay)
         return
     bad = judge(so, workers, producers, items, mode)
     if bad:
@@ -153,6 +154,8 @@ def run_probe(ctx, binary, tsan, compiler, variant, args, expect_known=None):
         seen = set()
         for rep in tsan_reports(se):
             fk = classify_tsan(rep)
+            if variant == "noshutdown" and re.search(r"~Disp\(\)|~threaded_dispatcher\(\)", rep):
+                fk = "c15:vptr_race_on_destruction"     # the derived part is destroyed under the running worker
             if fk in seen:
                 continue
             seen.add(fk)
@@ -196,7 +199,7 @@ def run(ctx):
             if b:
                 run_probe(ctx, b, True, "g++", data.get("variant", "shutdown"), tuple(data["args"]))
         # 2 stress + race search
-        n = ctx.budget(10, 40)
+        n = ctx.budget(24, 120)
         for (comp, tsan, variant), b in sorted(bins.items()):
             sets = arg_sets(ctx, rng, n if variant == "shutdown" else 2)
             for a in sets:
